@@ -33,10 +33,13 @@ def gen_case(rng):
         for j, w, s_ in zip(others, ws, sg):
             M[i][j] = s_ * w / sum(ws)
     b = [rng.choice([0.0, 0.5, -0.25, 1.0]) for _ in range(n)]
+    mixed = rng.random() < 0.5      # designed to contain both converging and non-converging samples in one batch
     return dict(n=n, kind=kind, M=M, b=b,
-                tol=rng.choice([1e-4, 1e-6, 1e-8, 1e-10, 1e-12]), max_iter=rng.choice([1, 2, 5, 10, 20, 40, 60]),
-                mem=rng.choice([1, 2, 5, 10]), extra_out=rng.random() < 0.6, downstream=rng.random() < 0.6,
-                batch=rng.randint(1, 10), seed=rng.randrange(10 ** 9))
+                tol=rng.choice([1e-4, 1e-6, 1e-8, 1e-10, 1e-12]),
+                max_iter=rng.choice([3, 4, 6, 9]) if mixed else rng.choice([1, 2, 5, 10, 20, 40, 60]),
+                mem=rng.choice([1, 1, 2]) if mixed else rng.choice([1, 2, 5, 10]), extra_out=rng.random() < 0.6,
+                downstream=rng.random() < 0.6, batch=rng.randint(4, 10) if mixed else rng.randint(1, 10), mixed=mixed,
+                seed=rng.randrange(10 ** 9))
 
 
 class Log:
@@ -89,7 +92,8 @@ def exact_solution(case, rho):
 def run_case(ctx, res, case, lines, post):
     rng = random.Random(case['seed'])
     n, N = case['n'], case['batch']
-    rhos = [rng.choice([0.1, 0.3, 0.5, 0.7, 0.9, 0.97, 1.2, 1.5]) for _ in range(N)]
+    rhos = [rng.choice([0.0, 0.02, 0.1, 0.97, 1.2, 1.5] if case.get('mixed') else [0.1, 0.3, 0.5, 0.7, 0.9, 0.97, 1.2, 1.5])
+            for _ in range(N)]
     x = {'sid': np.arange(N, dtype=float), 'rho': np.array(rhos)}
     log = Log()
     system = build(case, log)
